@@ -57,7 +57,7 @@ func drawCase(t *rapid.T) Case {
 	c.Method = rapid.SampledFrom(methods).Draw(t, "method")
 
 	// universe: 1..6 distinct ledgers over 1..5 ledger ids and backend ids {0,1}
-	nLid := rapid.IntRange(1, 5).Draw(t, "nlid")
+	nLid := []int{3, 2, 4, 5, 1}[rapid.IntRange(0, 4).Draw(t, "nlid")]
 	var pool []Ledger
 	for l := 0; l < nLid; l++ {
 		for b := uint32(0); b < 2; b++ {
@@ -78,7 +78,7 @@ func drawCase(t *rapid.T) Case {
 	// 0..8 multi-ledger assets, ledgers repeated in any order
 	nA := 0
 	if k := rapid.IntRange(0, 16).Draw(t, "nassets"); k < 16 {
-		nA = k%8 + 1
+		nA = []int{3, 2, 4, 5, 1, 6, 7, 8}[k%8]
 	}
 	c.Assets = make([]int, 0, nA+1)
 	for i := 0; i < nA; i++ {
@@ -122,7 +122,7 @@ func TestMultiLedger(t *testing.T) {
 	rec.SetRule(rule,
 		"the harness owns the completion order of the sub-calls (scripted callees block until released); the order in which the dispatcher's goroutines are started and in which their results enter its error channel is left to the Go scheduler and only sampled",
 		"the scripted callees ignore the context, so the funding timeout derived from Params.ChallengeDuration (fixed at 3600 s) never influences a verdict; ChallengeDuration > MaxInt64 (refused by Fund before any forwarding) is outside the generated domain",
-		"wall-clock limits (20 s) are used only to detect a definite hang: an expected call that never starts, a dispatcher that never returns",
+		"wall-clock limits (10 s) are used only to detect a definite hang: an expected call that never starts, a dispatcher that never returns",
 		"calls that the oracle does not expect (duplicates, unrelated ledgers, a blocked egoistic ledger) are observed up to a short scheduling grace after the dispatcher returned; a later stray call would be missed, never reported wrongly",
 		"Subscribe is not part of the property (it lists register, progress, withdraw, fund) and is not exercised")
 	defer rec.Flush()
